@@ -80,11 +80,16 @@ def gen(rng, tier):
                     t_eff = tr
             out = _outcome(rng)
             la = _lat_near(rng, t_eff)
+            if out == "never" and cancel and rng.random() < 0.5:
+                # an inner future that never completes AND exhausts tokio's cooperative budget on every poll:
+                # the deadline must still fire (tokio's `timeout` polls its timer unconstrained in that case)
+                out = "hog"
+                words.append("coop=1")
             words.append("inner=%d:%s" % (la, out))
             ops.append(" ".join(words))
             arrived.append(c)
             eff[c] = t_eff
-            lat[c] = None if out == "never" else la
+            lat[c] = None if out in ("never", "hog") else la
             # separate creation from the first poll about half of the time
             if rng.random() < 0.5:
                 ops.append("poll %d" % c)
@@ -154,7 +159,7 @@ def _script(case):
             la, _, out = first.partition(":")
             if not out:
                 la, out = "0", la
-            res[w[1]] = (t_eff, None if out == "never" else int(la), out, now)
+            res[w[1]] = (t_eff, None if out in ("never", "hog") else int(la), out, now)
     return res
 
 
